@@ -114,12 +114,12 @@ def match_known(ob, prop, known):
 
 # ------------------------------------------------------------------------------ helpers the rules do not know
 # Rules that follow calls themselves (their verdict does not depend on where a piece of code lives):
-HELPER_AWARE = {'CAPACITY', 'EFFECT', 'EFFECT-IR', 'ACCUM-ONCE', 'KEY-ARITH', 'ITER-INVALIDATION', 'OWN-ALIAS', 'FIELD-COVER', 'SENTINEL-EXCLUDED',
+HELPER_AWARE = {'CAPACITY', 'IN-RANGE', 'INDEX-COVER', 'WINDOW-FORM', 'CTOR-AGREE', 'NARROW-SCOPE', 'EFFECT', 'EFFECT-IR', 'ACCUM-ONCE', 'KEY-ARITH', 'ITER-INVALIDATION', 'OWN-ALIAS', 'FIELD-COVER', 'SENTINEL-EXCLUDED',
                 'PRECISION', 'TYPE', 'SLOPE-ORDER', 'INT-INTERCEPT', 'CONV-RANGE', 'TABLE-WIDTH', 'DATA-EXACT', 'BACK-GUARD', 'SELECT-RANGE'}
 
 
 # obligations decided on the flat view of a function (rules/inline.py: flat), which contains the bodies of all its helpers
-HELPER_AWARE_ARMS = {'build-level'}
+HELPER_AWARE_ARMS = {'build-level', 'end-gap', 'cover', 'deleted-set'}
 
 
 def unknown_helpers(fn):
@@ -155,6 +155,8 @@ def unknown_helpers(fn):
 def soften_unknown(obs):
     """a violation reported in a function, part of whose body now lives in a helper the rule does not follow, is not a verdict:
     the rule saw only half of the code.  It becomes undecided (exit 2), never silently a pass."""
+    if os.environ.get('PGM_NO_SOFTEN'):     # development aid (selftest): show what the rules say before softening
+        return obs
     for o in obs:
         if o.status == VIOLATED and o.fn is not None and o.rule.split(':')[-1] not in HELPER_AWARE and str(o.arm or '').split(':')[0] not in HELPER_AWARE_ARMS:
             try:
